@@ -56,6 +56,12 @@ declarations:
 - decl: int dotTwo(const int *a +rank(1), int na +implied(size(a)), const int *b +rank(1), int nb +implied(size(b)))
 - decl: void fillVecN(int n, std::vector<int> &v +intent(out))
 - decl: std::vector<int> retVec()
+# the user's own release code (strings.yaml, getConstStringPtrLen): 'final' runs after the result has been copied out
+- decl: const std::string *makeLabel(int n) +len(40)
+  fstatements:
+    c_buf:
+      final:
+      - delete {cxx_var};
 patterns:
   pool_release: |
     poolRelease(reinterpret_cast<int *>(ptr));
@@ -101,6 +107,7 @@ void takeNames(char **names);
 void modStr(std::string &s);
 void outCstr(char *s);
 void growCstr(char *s);
+const std::string *makeLabel(int n);
 void takeVec(const std::vector<int> &v);
 void takeVecStr(const std::vector<std::string> &v);
 int dotTwo(const int *a, int na, const int *b, int nb);
@@ -166,9 +173,10 @@ void fillVec(std::vector<int> &v) { v.clear(); v.push_back(4); v.push_back(5); v
 void takeStr(const std::string &s) { (void) s.size(); }
 void takeCstr(const char *s) { (void) std::strlen(s); }
 extern "C" { long vt_seen = 0; }
-void takeNames(char **names) { vt_seen = (long) std::strlen(names[0]) * 100 + (long) std::strlen(names[1]); }
+void takeNames(char **names) { vt_seen = (long) (names[0] ? std::strlen(names[0]) : 9) * 100 + (long) (names[1] ? std::strlen(names[1]) : 9); }
 void modStr(std::string &s) { vt_seen = (long) s.size(); s += " and a tail that does not fit into the caller's variable"; }
 void outCstr(char *s) { std::strcpy(s, "twelve chars"); }
+const std::string *makeLabel(int n) { return new std::string((size_t) n, 'L'); }
 void growCstr(char *s) { vt_seen = (long) std::strlen(s); std::strcat(s, "+xy"); }  /* the caller's variable has room for it */
 void takeVec(const std::vector<int> &v) { vt_seen = (long) v.size(); }
 void takeVecStr(const std::vector<std::string> &v) { vt_seen = (long) v.size() * 100 + (long) v[v.size() - 1].size(); }
@@ -189,7 +197,8 @@ extern "C" void vt_base(void) { vt_base_cxx = vt_cxx_live; vt_ctor = 0; }
 extern "C" void vt_mal_begin(void) { vt_mal_live = 0; vt_count_malloc = 1; }
 extern "C" void vt_mal_end(const char *op) { vt_count_malloc = 0; std::printf("MAL %s %ld\n", op, vt_mal_live); std::fflush(stdout); vt_mal_live = 0; }
 #ifndef VT_ASAN
-extern "C" void *__wrap_malloc(size_t n) { void *p = __real_malloc(n); if (vt_count_malloc && p) vt_mal_live++; return p; }
+/* malloc'ed memory is handed out filled with a pattern: code that reads it before writing it fails the same way every time */
+extern "C" void *__wrap_malloc(size_t n) { void *p = __real_malloc(n); if (p) std::memset(p, 0xA5, n); if (vt_count_malloc && p) vt_mal_live++; return p; }
 extern "C" void __wrap_free(void *p) { if (vt_count_malloc && p) vt_mal_live--; __real_free(p); }
 extern "C" void *__real_calloc(size_t, size_t);
 extern "C" void *__wrap_calloc(size_t n, size_t m) { void *p = __real_calloc(n, m); if (vt_count_malloc && p) vt_mal_live++; return p; }
@@ -287,6 +296,10 @@ int main(int argc, char **argv) {
             } else if (op[1] == 'v') {
                 int *buf = (int *) malloc(sizeof(int) * (id ? id : 1)); for (int k = 0; k < id; k++) buf[k] = k;
                 vt_seen = -1; OWN_take_vec_bufferify(buf, id); val = vt_seen; free(buf);
+            } else if (op[1] == 'l') {
+                /* a new std::string of id characters copied into a character(40) result; the user's final code deletes it */
+                char *buf = (char *) malloc(40); memset(buf, '#', 40);
+                OWN_make_label_bufferify(id, buf, 40); for (int k = 0; k < 40; k++) val += (buf[k] == 'L') + 100 * (buf[k] != 'L' && buf[k] != ' '); free(buf);
             } else if (op[1] == 'w') {
                 char *buf = (char *) malloc(2 * id); memset(buf, ' ', 2 * id); memcpy(buf, "ab", id < 2 ? id : 2); memcpy(buf + id, "c", id < 1 ? id : 1);
                 vt_seen = -1; OWN_take_vec_str_bufferify(buf, 2, id); val = vt_seen; free(buf);
@@ -445,6 +458,8 @@ program drv
         call out_case(id, val)
       case ('g')
         call grow_case(id, val)
+      case ('l')
+        call label_case(id, val)
 #ifndef VT_CFI
       case ('v')
         call vec_case(id)
@@ -455,7 +470,7 @@ program drv
 #endif
       end select
       call vt_mal_end(trim(op) // C_NULL_CHAR)
-      if (op(2:2) /= 'm' .and. op(2:2) /= 'o' .and. op(2:2) /= 'g' .and. op(2:2) /= 'f') val = vt_seen
+      if (op(2:2) /= 'm' .and. op(2:2) /= 'o' .and. op(2:2) /= 'g' .and. op(2:2) /= 'f' .and. op(2:2) /= 'l') val = vt_seen
     end select
     call status(trim(op), val)
   end do
@@ -499,6 +514,22 @@ contains
     v = vt_seen * 1000
     do k = 1, n
       if (sv(k:k) /= ' ') v = v + 1
+    end do
+  end subroutine
+  subroutine label_case(n, v)
+    integer, intent(in) :: n
+    integer(C_LONG), intent(out) :: v
+    character(len=40) :: lab
+    integer :: k
+    lab = repeat('#', 40)
+    lab = make_label(int(n, C_INT))
+    v = 0
+    do k = 1, 40
+      if (lab(k:k) == 'L') then
+        v = v + 1
+      else if (lab(k:k) /= ' ') then
+        v = v + 100
+      end if
     end do
   end subroutine
   subroutine grow_case(n, v)
@@ -582,7 +613,7 @@ class M(object):
 IDS = {0: 5, 1: 7}
 # stateless calls whose wrappers build temporaries: op -> value the driver must report
 TEMP_VALS = {"Tn:1": 101, "Tn:4": 201, "Tm:1": 1001, "Tm:3": 3003, "Tm:8": 3006, "To:20": 11, "To:32": 11, "Tg:5": 2005, "Tg:9": 2005,
-             "Tv:0": 0, "Tv:3": 3, "Tw:1": 201, "Tw:4": 201, "Tf:0": 70007, "Tf:2": 71207, "Tf:3": 71237, "Tf:5": 71237}
+             "Tv:0": 0, "Tv:3": 3, "Tw:1": 201, "Tw:4": 201, "Tl:0": 0, "Tl:5": 5, "Tl:40": 40, "Tl:64": 40, "Tf:0": 70007, "Tf:2": 71207, "Tf:3": 71237, "Tf:5": 71237}
 TEMP_OPS = sorted(TEMP_VALS)
 
 
@@ -738,7 +769,7 @@ def trace_matches(got, want):
 
 
 # ---------------------------------------------------------------- the Python front end
-PY_UNSUPPORTED = ("takeVecStr", "byvalue")  # do not generate / compile for Python at all: property C05's subject
+PY_UNSUPPORTED = ("takeVecStr", "byvalue", "makeLabel")  # do not generate / compile for Python at all: property C05's subject
 PYDRIVER = r"""
 import ctypes, gc, sys
 import own
@@ -784,6 +815,12 @@ for op in sys.argv[1:]:
         if op[1] == "s": own.takeStr("hello world, this is a long argument"); seen.value = 0
         elif op[1] == "c": own.takeCstr("plain"); seen.value = 0
         elif op[1] == "n": own.takeNames(["ab"[:ident], "c"[:ident]])
+        elif op[1] == "q":
+            # a list with None in it (an absent name), and lists with an element that is no string before / between strings
+            try:
+                own.takeNames([["ab", None], [None, "c"], ["ab", 5, "c"], [7, "ab", "c"], ["ab", "c", 5.5]][ident - 1])
+            except (TypeError, ValueError):
+                seen.value = -2
         elif op[1] == "m": r = own.modStr("dog"[:ident]); seen.value = 0
         elif op[1] == "o": r = own.outCstr(); seen.value = 0
         elif op[1] == "v": own.takeVec(list(range(ident)))
@@ -811,7 +848,7 @@ def py_enabled(m):
             ops += ["m%d" % s_, "r%d" % s_]
             if slots[1 - s_] is None:
                 ops.append("y%d%d" % (s_, 1 - s_))
-    ops += ["SN", "SR", "SC", "SL", "SE", "SF", "An:3", "An:0", "Al:3", "Ap:3", "Vf", "Vr", "Ts", "Tc", "Tn:1", "Tn:4", "Tm:3", "To:20", "Tv:0", "Tv:3", "Te:1", "Te:2", "Te:3"]
+    ops += ["SN", "SR", "SC", "SL", "SE", "SF", "An:3", "An:0", "Al:3", "Ap:3", "Vf", "Vr", "Ts", "Tc", "Tn:1", "Tn:4", "Tm:3", "To:20", "Tv:0", "Tv:3", "Te:1", "Te:2", "Te:3", "Tq:1", "Tq:2", "Tq:3", "Tq:4", "Tq:5"]
     return ops
 
 
@@ -1358,7 +1395,7 @@ def run(ctx):
                           {"kind": "fortran", "history": list(hist)})
     # the same histories (without the vector operations) on the module generated with F_CFI
     if "fcfi" in exes:
-        ch = [h for h in fh if not any(op[0] == "V" or op[:2] in ("Tv", "Tw", "Tf", "Tn") for op in h)]  # char ** keeps a type(C_PTR) dummy under F_CFI
+        ch = [h for h in fh if not any(op[0] == "V" or op[:2] in ("Tv", "Tw", "Tf", "Tn", "Tl") for op in h)]  # char ** keeps a type(C_PTR) dummy under F_CFI; the user's c_buf statements (Tl) belong to the buffer wrapper
         cres = isolate.pmap(run_history, [(exes["fcfi"], h, False) for h in ch], ctx.workers, chunksize=16)
         for hist, (rc, got, se) in zip(ch, cres):
             _, want = f_model_trace(hist)
